@@ -337,18 +337,33 @@ def killdesc(kill):
     return "%s+%d#%d" % (kill["func"], kill["rel"], kill["nth"])
 
 
-def run_scenario(ctx, conf, nticks, kill, resume, workdir, tag, census=False):
-    """One configuration x crash point (x optional resume).  Returns the report of phase 1."""
+def plan(conf, nticks, kill, resume, workdir, tag, census=False):
+    """One configuration x crash point (x optional resuming process): the jobs
+    for the launcher plus what the judge needs."""
     prefix = os.path.join(workdir, "p-%s" % tag)
     os.makedirs(prefix)
     spec, ids, next_id = make_spec(conf, nticks, 0)
-    job = {"spec": spec, "prefix": prefix, "kill": kill, "ids": ids, "census": census}
-    rc, report, err = logx.run_child(job, workdir, tag)
-    casekey = {"conf": conf, "n": nticks, "kill": killdesc(kill), "resume": bool(resume)}
+    jobs = [{"spec": spec, "prefix": prefix, "kill": kill, "ids": ids, "census": census}]
+    resume = bool(resume and conf["reuse"])
+    snap = None
+    if resume:
+        spec2, ids2, _ = make_spec(conf, 12, next_id, resume=True)
+        jobs.append({"spec": spec2, "prefix": prefix, "kill": None, "ids": ids2})
+        snap = os.path.join(workdir, "s-%s" % tag)
+    return {"tag": tag, "jobs": jobs, "snap": snap, "conf": conf, "n": nticks, "kill": kill,
+            "resume": resume, "prefix": prefix}
+
+
+def judge(ctx, pl, runs, count=True):
+    """Decide one executed scenario.  runs = [(rc, report)] for the first and the resuming process."""
+    conf, kill, prefix, nticks = pl["conf"], pl["kill"], pl["prefix"], pl["n"]
+    spec = pl["jobs"][0]["spec"]
+    rc, report = runs[0]
+    casekey = {"conf": conf, "n": nticks, "kill": killdesc(kill), "resume": pl["resume"]}
 
     def wit(extra):
-        d = {"config": conf, "ticks": nticks, "kill": kill, "resume": bool(resume), "exit": rc,
-             "report_tail": [" ".join(t) for t in report[-12:] if t[0] != "L"]}
+        d = {"config": conf, "ticks": nticks, "kill": kill, "resume": pl["resume"], "exit": rc,
+             "report_tail": [" ".join(t) for t in report if t[0] != "L"][-12:]}
         d.update(extra)
         return d
 
@@ -360,23 +375,28 @@ def run_scenario(ctx, conf, nticks, kill, resume, workdir, tag, census=False):
             ctx.fail("exception/" + info["key"], "the logger raised inside the child", wit({"traceback": info["tb"]}))
         else:
             ctx.case(casekey, nontrivial=False)
-            ctx.inconclusive_case("child %s rc=%s: %s" % (tag, rc, err[-300:]))
-        return report
+            ctx.inconclusive_case("child %s rc=%s" % (pl["tag"], rc))
+        return
     tree = [t for t in report if t[0] == "TREE"]
     from vf.core import REPO
     if not tree or not os.path.realpath(tree[0][1]).startswith(os.path.realpath(REPO)):
         ctx.inconclusive_case("child imported ioflo from %s" % (tree[0][1] if tree else "?"))
-        return report
+        return
     if kill and kill["kind"] == "line" and not any(t[0] == "MON" for t in report):
-        ctx.inconclusive_case("line monitor not attached in child %s" % tag)
-        return report
+        ctx.inconclusive_case("line monitor not attached in child %s" % pl["tag"])
+        return
     killed = rc == 137
-    dirpath = logger_dir(report, prefix, spec)
+    livedir = logger_dir(report, prefix, spec)
+    # the state the first process left: the snapshot when a second process went on in the same directory
+    dirpath = livedir
+    if livedir is not None and pl["snap"] and os.path.isdir(pl["snap"]):
+        dirpath = os.path.join(pl["snap"], os.path.relpath(livedir, prefix))
     models = {n: fresh_model(conf["keep"]) for n in LOGS}
     st = replay(report, models)
     nw = sum(s["w"] for s in st.values())
     nontrivial = (killed and nw > 0) or (not killed and any(s["flushes"] for s in st.values()))
-    ctx.case(casekey, nontrivial=nontrivial)
+    if count:
+        ctx.case(casekey, nontrivial=nontrivial)
     if killed and kill["kind"] == "tick" and kill["tick"] in (7, 13) and conf["keep"]:
         ctx.sample({"config": conf, "killed_at_start_of_tick": kill["tick"],
                     "per_log": {n_: {"last_written": st[n_]["written"], "last_flushed": st[n_]["flushed"],
@@ -389,15 +409,15 @@ def run_scenario(ctx, conf, nticks, kill, resume, workdir, tag, census=False):
         ctx.check(any(t[0] == "END" for t in report), "harness/no-end", "child exited 0 without END", lambda: wit({}))
     ctx.hit("rotations_observed", sum(s["rot"] for s in st.values()))
     ctx.hit("flushes_observed", sum(s["flushes"] for s in st.values()))
-    if dirpath is None:
+    if dirpath is None or not os.path.isdir(dirpath):
         # killed before the directory was made: nothing written, nothing to lose
         ctx.check(nw == 0, "crash/no-directory-but-records-written", "records reported but no log directory", lambda: wit({}))
-        return report
+        return
     disks = {}
     for name in LOGS:
         disk = read_disk(dirpath, name, conf["keep"])
         disks[name] = disk
-        w = (lambda name: (lambda extra: wit(dict(extra, dir=os.path.relpath(dirpath, prefix)))))(name)
+        w = (lambda name: (lambda extra: wit(dict(extra, dir=os.path.relpath(livedir, prefix)))))(name)
         generic_invariants(ctx, name, disk, conf, w)
         if killed:
             crash_oracle(ctx, name, disk, models[name], st[name], w)
@@ -408,50 +428,69 @@ def run_scenario(ctx, conf, nticks, kill, resume, workdir, tag, census=False):
     ctx.check(not extra_files, "rotation/unexpected-file", "the log directory holds a file outside the rotation set",
               lambda: wit({"files": extra_files}))
 
-    if resume and conf["reuse"]:
-        spec2, ids2, _ = make_spec(conf, 12, next_id, resume=True)
-        models2 = {n: model_from_disk(disks[n]) for n in LOGS}
-        empty_main = [n for n in LOGS if disks[n][0] is not None and disks[n][0]["size"] == 0]
-        job2 = {"spec": spec2, "prefix": prefix, "kill": None, "ids": ids2}
-        rc2, report2, err2 = logx.run_child(job2, workdir, tag + "r")
-        if rc2 != 0:
-            x = [t for t in report2 if t[0] == "X"]
-            if x:
-                info = json.loads(" ".join(x[0][1:]))
-                ctx.fail("exception-on-resume/" + info["key"], "the logger raised when resuming in the same directory",
-                         wit({"traceback": info["tb"]}))
-            else:
-                ctx.inconclusive_case("resume child %s rc=%s: %s" % (tag, rc2, err2[-300:]))
-            return report
-        ctx.hit("resumes")
-        if killed:
-            ctx.hit("resumes_after_kill")
-        st2 = replay(report2, models2)
-        ctx.hit("rotations_observed", sum(s["rot"] for s in st2.values()))
-        dir2 = logger_dir(report2, prefix, spec2)
-        ctx.check(dir2 == dirpath, "reuse/different-directory", "with reuse the resumed logger used another directory",
-                  lambda: wit({"first": dirpath, "second": dir2}))
-        for name in LOGS:
-            disk2 = read_disk(dir2, name, conf["keep"])
+    if not pl["resume"]:
+        return
+    if len(runs) < 2:
+        ctx.inconclusive_case("resume of %s did not run" % pl["tag"])
+        return
+    rc2, report2 = runs[1]
+    spec2 = pl["jobs"][1]["spec"]
+    models2 = {n: model_from_disk(disks[n]) for n in LOGS}
+    empty_main = [n for n in LOGS if disks[n][0] is not None and disks[n][0]["size"] == 0]
+    if rc2 != 0:
+        x = [t for t in report2 if t[0] == "X"]
+        if x:
+            info = json.loads(" ".join(x[0][1:]))
+            ctx.fail("exception-on-resume/" + info["key"], "the logger raised when resuming in the same directory",
+                     wit({"traceback": info["tb"]}))
+        else:
+            ctx.inconclusive_case("resume child %s rc=%s" % (pl["tag"], rc2))
+        return
+    ctx.hit("resumes")
+    if killed:
+        ctx.hit("resumes_after_kill")
+    st2 = replay(report2, models2)
+    ctx.hit("rotations_observed", sum(s["rot"] for s in st2.values()))
+    dir2 = logger_dir(report2, prefix, spec2)
+    ctx.check(dir2 == livedir, "reuse/different-directory", "with reuse the resumed logger used another directory",
+              lambda: wit({"first": livedir, "second": dir2}))
+    for name in LOGS:
+        disk2 = read_disk(dir2, name, conf["keep"])
 
-            def w2(extra, name=name, disk2=disk2):
-                return wit(dict(extra, phase="resumed by a second process", after_first_process=describe(disks[name]),
-                                main_was_empty_file=name in empty_main,
-                                report2_tail=[" ".join(t) for t in report2[-8:]]))
-            # a headerless main file that was an existing empty file when the second process started
-            if name in empty_main:
-                ctx.hit("resumes_on_empty_main_file")
-            bad_hdr = [k for k, f in enumerate(disk2) if f and f["size"] and not f["hdr"] and not f["bad"]]
-            if name in empty_main:
-                # the first process died before its header reached the disk: the main file existed, empty
-                ctx.check(not bad_hdr, "header/not-written-when-resuming-on-empty-file",
-                          "a process resuming (reuse) on a main log file left empty by a killed process appends records without ever writing the header",
-                          lambda: w2({"log": name, "headerless_files": bad_hdr, "on_disk": describe(disk2)}))
-                for k in bad_hdr:      # judge everything else with that header set aside
-                    disk2[k] = dict(disk2[k], hdr=True)
-            generic_invariants(ctx, name, disk2, conf, w2)
-            exact_oracle(ctx, name, disk2, models2[name], w2)
-    return report
+        def w2(extra, name=name, disk2=disk2):
+            return wit(dict(extra, phase="resumed by a second process", after_first_process=describe(disks[name]),
+                            main_was_empty_file=name in empty_main,
+                            report2_tail=[" ".join(t) for t in report2[-8:]]))
+        if name in empty_main:
+            ctx.hit("resumes_on_empty_main_file")
+        bad_hdr = [k for k, f in enumerate(disk2) if f and f["size"] and not f["hdr"] and not f["bad"]]
+        if name in empty_main:
+            # the first process died before its header reached the disk: the main file existed, empty
+            ctx.check(not bad_hdr, "header/not-written-when-resuming-on-empty-file",
+                      "a process resuming (reuse) on a main log file left empty by a killed process appends records without ever writing the header",
+                      lambda: w2({"log": name, "headerless_files": bad_hdr, "on_disk": describe(disk2)}))
+            for k in bad_hdr:      # judge everything else with that header set aside
+                disk2[k] = dict(disk2[k], hdr=True)
+        generic_invariants(ctx, name, disk2, conf, w2)
+        exact_oracle(ctx, name, disk2, models2[name], w2)
+
+
+def run_plans(ctx, plans, workdir, tag, count=True):
+    """Execute the planned scenarios in one launcher and judge them."""
+    res, why = logx.run_batch(plans, workdir, tag, timeout=300)
+    if res is None:
+        ctx.inconclusive_case("launcher %s failed: %s" % (tag, why))
+        return {}
+    for pl in plans:
+        runs = res.get(pl["tag"])
+        if not runs:
+            ctx.inconclusive_case("scenario %s not executed" % pl["tag"])
+            continue
+        judge(ctx, pl, runs, count=count)
+        shutil.rmtree(pl["prefix"], ignore_errors=True)
+        if pl["snap"]:
+            shutil.rmtree(pl["snap"], ignore_errors=True)
+    return res
 
 
 # ------------------------------------------------------------------ strace (thorough)
@@ -541,72 +580,55 @@ def line_points(report):
     return pts, cnt
 
 
-def census_run(ctx, conf, n, workdir, tag, count):
-    """Un-killed run with the LINE monitor reporting every executed line of the
-    anchored functions; decided like any normal end by the shard that counts it."""
-    if count:
-        return run_scenario(ctx, conf, n, None, False, workdir, tag, census=True)
-    prefix = os.path.join(workdir, "p-%s" % tag)
-    os.makedirs(prefix)
-    spec, ids, _ = make_spec(conf, n, 0)
-    rc, report, err = logx.run_child({"spec": spec, "prefix": prefix, "kill": None, "ids": ids, "census": True},
-                                     workdir, tag)
-    if rc != 0:
-        ctx.inconclusive_case("census child rc=%s: %s" % (rc, err[-200:]))
-    return report
-
-
 def worker(ctx, job):
     workdir = scratch_dir("c23")
     try:
-        conf, n = job["conf"], job["n"]
+        conf, n, ix = job["conf"], job["n"], job["index"]
         if job["mode"] == "ticks":
+            plans = []
             for K in job["kills"]:
                 kill = None if K is None else {"kind": "tick", "tick": K}
-                resume = conf["reuse"] and (K is None or K <= 4 or K % 4 == 1)
-                run_scenario(ctx, conf, n, kill, resume, workdir, "c%dk%s" % (job["index"], K))
-                shutil.rmtree(os.path.join(workdir, "p-c%dk%s" % (job["index"], K)), ignore_errors=True)
+                resume = K is None or K <= 4 or K % 4 == 1
+                plans.append(plan(conf, n, kill, resume, workdir, "c%dk%s" % (ix, K)))
+            run_plans(ctx, plans, workdir, "t%d" % ix)
             if job.get("sample"):
                 ctx.sample({"config": conf, "ticks": n, "crash_points": ["no kill"] + ["start of tick %d" % k for k in job["kills"] if k is not None][:5] + ["..."]})
         elif job["mode"] == "lines":
-            rep = census_run(ctx, conf, n, workdir, "c%dcensus" % job["index"], count=job["part"] == 0)
+            cplan = plan(conf, n, None, False, workdir, "c%dcensus" % ix, census=True)
+            res = run_plans(ctx, [cplan], workdir, "census%d" % ix, count=job["part"] == 0)
+            rep = res.get(cplan["tag"], [(None, [])])[0][1]
             pts, cnt = line_points(rep)
             ctx.hit("census_lines", len(cnt))
             mine = pts[job["part"]::job["parts"]]
-            for j, kill in enumerate(mine):
-                resume = conf["reuse"] and j % 3 == 0
-                tag = "c%dl%d" % (job["index"], j)
-                run_scenario(ctx, conf, n, kill, resume, workdir, tag)
-                shutil.rmtree(os.path.join(workdir, "p-" + tag), ignore_errors=True)
+            plans = [plan(conf, n, kill, j % 3 == 0, workdir, "c%dl%d" % (ix, j)) for j, kill in enumerate(mine)]
+            run_plans(ctx, plans, workdir, "l%d" % ix)
             if job["part"] == 0:
                 ctx.sample({"config": conf, "line_crash_points": len(pts), "first": pts[:4],
                             "executed_lines_per_function": {fn: sum(1 for (f, r) in cnt if f == fn) for fn in logx.LINE_TARGETS}})
         elif job["mode"] == "strace":
-            strace_scenario(ctx, conf, n, workdir, "c%dst" % job["index"])
+            strace_scenario(ctx, conf, n, workdir, "c%dst" % ix)
     finally:
         shutil.rmtree(workdir, ignore_errors=True)
 
 
 def run(ctx):
-    n = ctx.pick(20, 40)
-    confs = pick_configs(ctx.subrng("c23-configs"), ctx.pick(10, 28))
+    n = ctx.pick(24, 40)
+    allc = all_configs()
+    confs = pick_configs(ctx.subrng("c23-configs"), ctx.pick(32, 112))
     jobs = []
     if not ctx.quick:       # the longest jobs first
-        lconfs = [c for c in confs if c["keep"] >= 1 and c["cycle"] <= 3 * DT][:4]
+        lconfs = [c for c in confs if c["keep"] >= 1 and c["cycle"] <= 3 * DT][:8]
         for conf in lconfs:
-            for part in range(8):
-                jobs.append({"mode": "lines", "conf": conf, "n": 16, "part": part, "parts": 8})
+            for part in range(2):
+                jobs.append({"mode": "lines", "conf": conf, "n": 16, "part": part, "parts": 2})
         for conf in [c for c in confs if c["keep"] >= 1][:2] + [c for c in confs if c["keep"] == 0][:1]:
             jobs.append({"mode": "strace", "conf": conf, "n": 24})
-    chunk = ctx.pick(7, 14)
     for ci, conf in enumerate(confs):
         kills = [None] + list(range(1, n))
-        for a in range(0, len(kills), chunk):
-            jobs.append({"mode": "ticks", "conf": conf, "n": n, "kills": kills[a:a + chunk],
-                         "sample": ci == 0 and a == 0})
+        jobs.append({"mode": "ticks", "conf": conf, "n": n, "kills": kills, "sample": ci == 0})
     ctx.shard(jobs, timeout=ctx.pick(150, 340))
     ctx.extra["configurations"] = len(confs)
-    ctx.extra["configuration_space"] = len(all_configs())
+    ctx.extra["configuration_space"] = len(allc)
     ctx.extra["ticks_per_run"] = n
     nk = len(confs) * (n - 1)
     ctx.floor("kills_performed", nk // 2)
